@@ -29,7 +29,7 @@ theorem loopParams_cases (depth colorType : UInt8) (hd : depth = 8 ∨ depth = 1
 state of the right size: it succeeds, leaves a usable encoder, and the bytes written decode (by the
 reference decoder) to the input's dimensions, depth, colour type and pixel bytes. -/
 theorem encode_decodes (e : Enc) (pix : Array UInt8) (width height stride : Nat) (depth colorType : UInt8)
-    (hsz : e.buf.size = 65536) (hoob : e.oob = false)
+    (hsz : e.buf.size = 65536) (hoob : e.oob = false) (hlen : pix.size < 9223372036854775808)
     (hw : 0 < width) (hw2 : width ≤ 0xFFFFFF) (hh : 0 < height) (hh2 : height ≤ 0xFFFFFF)
     (hd : depth = 8 ∨ depth = 16) (hc : colorType = 1 ∨ colorType = 2 ∨ colorType = 3)
     (hpix : (height - 1) * stride + (loopParams depth colorType).2 * width ≤ pix.size) :
@@ -59,7 +59,7 @@ theorem encode_decodes (e : Enc) (pix : Array UInt8) (width height stride : Nat)
     have : y' * stride ≤ (height - 1) * stride := Nat.mul_le_mul_right _ (by omega)
     omega
   obtain ⟨l1, l2⟩ := rowLoop_inv (header width height depth colorType) pix n k width stride hn64 hnk height 0
-    e0 (Writer.new none) eiFirst [] hinv0 hrows
+    e0 (Writer.new none) eiFirst [] hinv0 hlen hrows
   generalize rowLoop pix width (stride : Int) n k height 0 ⟨e0, Writer.new none, eiFirst, true⟩ = s at *
   simp only [l1, ↓reduceIte, List.nil_append] at l2 ⊢
   obtain ⟨hsz', hoob', hw', hej', bs, hlen, hout, hA, hnil, hcons⟩ := l2
